@@ -159,15 +159,17 @@ class GAF:
 
         # Check if there are additional tags
         tags = {}
-        for k in fields:
-            if re.match("[A-Za-z][A-Za-z0-9]:[AifZHB]:[A-Za-z0-9]+", k):
-                pattern = re.findall(r"([A-Za-z][A-Za-z0-9]:[AifZHB]:)[A-Za-z0-9]+", k)[0]
+        for k in fields[12:]:
+            match = re.match(r"^([A-Za-z][A-Za-z0-9]:[AifZHB]:)(.*)$", k)
+            if match:
+                pattern, val = match.groups()
+                if pattern == "ds:Z:":
+                    # the ds tag is not supported (see documentation of view) and is dropped
+                    continue
                 if pattern == "cg:Z:":
-                    val = re.findall(r"[A-Za-z][A-Za-z0-9]:[AifZHB]:([A-Za-z0-9=]+)", k)[0]
                     cigar = val
                     tags[pattern] = val
                 else:
-                    val = re.findall(r"[A-Za-z][A-Za-z0-9]:[AifZHB]:([A-Za-z0-9.]+)", k)[0]
                     if pattern not in tags:
                         tags[pattern] = val
 
